@@ -162,12 +162,16 @@ PLANS = {
     },
     'C19': {
         'quick': [
-            leg('R', 'R', 48, opts={'events': 12}, weight=16, max_workers=16,
+            leg('R', 'R', 44, opts={'events': 12}, weight=16, max_workers=13,
                 selftest=2, timeout=1700),
+            leg('R32', 'R', 9, opts={'events': 10, 'max_steps': 10}, x64=False,
+                max_workers=3, selftest=1, timeout=1700),
         ],
         'thorough': [
-            leg('R', 'R', 640, opts={'events': 16, 'kmax': 10}, weight=16,
-                max_workers=16, selftest=4, timeout=3400, deadline=3500),
+            leg('R', 'R', 560, opts={'events': 16, 'kmax': 10}, weight=16,
+                max_workers=13, selftest=4, timeout=3400, deadline=3500),
+            leg('R32', 'R', 120, opts={'events': 12, 'max_steps': 12}, x64=False,
+                max_workers=3, selftest=2, timeout=3400, deadline=3500),
         ],
         'rule': (
             'Each evaluation is one seeded simulated model run with a durable / '
